@@ -604,6 +604,15 @@ async def run_prog(i, bi, event, prog, sync):
                     RT.buses[ins[2]].dispatch(ev)
                 except Exception:
                     pass
+        elif op == 'dispatch_existing':
+            # the handler dispatches an event object that already exists (one of the first events of the scenario, typically a
+            # root dispatched by ordinary code): a replay / retry from inside a handler
+            old = RT.evobj.get(ins[1])
+            if old is not None and old is not event:
+                try:
+                    RT.buses[ins[2]].dispatch(old)
+                except Exception:
+                    pass
         elif op == 'redispatch_parent':
             # the handler dispatches the parent of the event it is handling (an ancestor becomes a child of its own descendant)
             par = RT.evobj.get(RT.eid.get(event.event_parent_id)) if event.event_parent_id else None
